@@ -7,7 +7,7 @@ CONSTANTS
   Symbols = {"aaa"}
   Scales = {1}
   Initials = {2}
-  Maxes = {3}
+  Maxes = {2, 3}
   Amounts = {5, 10}
   EditMaxes = {0, 1, 3}
   EditMint = {"", "true", "false"}
